@@ -1545,6 +1545,34 @@ func (c *Ctx) errUntestedExit(call ssa.CallInstruction) string {
 			case *ssa.Return:
 				cleared[x.Block()] = true
 			case ssa.CallInstruction:
+				// asking what KIND of error it is (errors.Is / errors.As / an IsXxx predicate: one bool result) does not
+				// consume it: on the `no` edge the error is still pending
+				if res := x.Common().Signature().Results(); res.Len() == 1 {
+					if bt, ok := res.At(0).Type().Underlying().(*types.Basic); ok && bt.Kind() == types.Bool {
+						// ... but on the `yes` edge the kind was recognised: consumed there
+						if pv, isV := r.(ssa.Value); isV {
+							for _, rr := range *pv.Referrers() {
+								cond, neg := rr, false
+								if u, isU := rr.(*ssa.UnOp); isU && u.Op == token.NOT {
+									neg = true
+									for _, r3 := range *u.Referrers() {
+										cond = r3
+									}
+								}
+								if iff, ok := cond.(*ssa.If); ok {
+									yes := iff.Block().Succs[0]
+									if neg {
+										yes = iff.Block().Succs[1]
+									}
+									if len(yes.Preds) == 1 {
+										cleared[yes] = true
+									}
+								}
+							}
+						}
+						continue
+					}
+				}
 				cleared[r.Block()] = true
 			case *ssa.Store, *ssa.MakeInterface, *ssa.MapUpdate, *ssa.Send:
 				cleared[r.Block()] = true
